@@ -13,7 +13,8 @@
     renewal falls back to a fresh subscription, an unreachable one does not (`fallbackOk`);
   * every request is valid GENA (`validReq`).
   A 200 whose TIMEOUT header mentions `Second-` but is neither `Second-<digits>` (representable) nor
-  `Second-infinite` is outside the property (DESIGN §5 C09 residual): judging stops at that call.
+  `Second-infinite` still grants the SID: the registry, the returned SID, fallback and validity clauses are
+  judged as always; only the *timeout value* the call returns is then left open (`grantedTimeout = none`).
   Import-free (linked into the driver).
 -/
 import Upnp.Model.C09Gena
@@ -64,7 +65,8 @@ def isRenewal (r : Request) : Bool := r.method = mSUBSCRIBE && (hdr r kSID).isSo
 def maxTd : Nat := 86399999999999
 
 /-- The timeout a 200 response grants: `Second-N` if present and finite, else the requested one.
-    `none`: the header mentions `Second-` but is no (representable) `Second-N` — outside the property. -/
+    `none`: the header mentions `Second-` but is no (representable) `Second-N` — no demand on the returned
+    timeout (the subscription itself is granted all the same). -/
 def grantedTimeout (th : Option Str) (requested : Int) : Option Int :=
   match th with
   | none => some requested
@@ -74,7 +76,8 @@ def grantedTimeout (th : Option Str) (requested : Int) : Option Int :=
     else if validTimeoutText v && decide (digitsVal (v.drop 7) ≤ maxTd) then some (Int.ofNat (digitsVal (v.drop 7)))
     else none
 
-/-- the exchange is within the property's domain -/
+/-- the exchange states its granted timeout canonically (otherwise the timeout a call returns is not judged;
+    everything else is) -/
 def exchInScope (e : Exch) : Bool :=
   match e.react with
   | .resp status _ th => if status = 200 ∧ e.req.method = mSUBSCRIBE then (grantedTimeout th 0).isSome else true
@@ -152,13 +155,17 @@ def requestedTimeout : Call → Option Int
   | .resubscribe _ t => some t
   | _ => none
 
+/-- the call returned SID `sid` and — where the publisher stated one canonically — the granted timeout -/
+def subResOk (res : Result) (sid : Str) (g : Option Int) : Bool :=
+  match res with
+  | .sub s' t' => s' == sid && (match g with | some x => t' == x | none => true)
+  | _ => false
+
 def resultOk (s : Step) : Bool :=
   match s.call with
   | .subscribe _ t | .resubscribe _ t =>
     (match lastGrant s.exch with
-     | some (sid, th) => (match grantedTimeout th t with
-        | some g => s.res == .sub sid g
-        | none => true)
+     | some (sid, th) => subResOk s.res sid (grantedTimeout th t)
      | none => (excOf s.res).isSome)
   | .unsubscribe _ =>
     (match s.exch.getLast? with
@@ -211,10 +218,16 @@ def stepOk (exp : PyDict Str Nat) (s : Step) : Bool :=
 def okFrom : PyDict Str Nat → List Step → Bool
   | _, [] => true
   | exp, s :: rest =>
-    if stepInScope s then stepOk exp s && okFrom (s.exch.foldl foldExch exp) rest
-    else true   -- outside the property's domain from here on
+    stepOk exp s && okFrom (s.exch.foldl foldExch exp) rest
 
 def ok (h : List Step) : Bool := okFrom [] h
+
+/-- diagnostics: index of the first rejected step and the expected map before it (`ok` ⇔ there is none:
+    `Props/C09.ok_iff_no_first_bad`) -/
+def firstBadFrom : PyDict Str Nat → List Step → Nat → Option (Nat × PyDict Str Nat)
+  | _, [], _ => none
+  | exp, s :: rest, i =>
+    if stepOk exp s then firstBadFrom (s.exch.foldl foldExch exp) rest (i + 1) else some (i, exp)
 
 end Upnp.C09
 
